@@ -117,6 +117,11 @@ def cases():
                    {"src": "Sb", "dst": "Sc", "sa": "p", "da": "i"}], "until": 5},
         [["Sc", "get_data", 1, {"E0": {"e": "ev1"}}], ["Sc", "get_data", 2, {"E0": {}}], ["Sc", "get_data", 3, {"E0": {}}],
          ["Sc", "get_data", 4, {"E0": {}}], ["Sc", "get_data", 5, {"E0": {}}]] + _tb(["Sa", "Sb", "Sc"], 7))
+    # D31: debug mode with an agent that never steps (the debug hook made a node for its "last step" -1)
+    add("debug_agent_never_steps", ["C04", "C05"],
+        {"sims": [{"sid": "Sa", "type": "time-based"}, {"sid": "Sb", "type": "event-based"}, {"sid": "Sc", "type": "time-based"}],
+         "conns": [{"src": "Sa", "dst": "Sb", "async": True}, {"src": "Sb", "dst": "Sc", "async": True}], "until": 5},
+        _tb(["Sa", "Sc"], 7))
     # D9: time-based simulator returning no next step
     add("tb_returns_none", ["C13"],
         {"sims": [{"sid": "Sa", "type": "time-based"}, {"sid": "Sb", "type": "time-based"}],
